@@ -176,8 +176,11 @@ def decl_order(F, rep):
             if second is None or second.get("k") != "If":
                 rep.ob("DECL-ORDER", "Resolver::statement|Definition|shape", False, "cannot find the function/value case split", line_of(arm))
                 continue
-            is_fn_test = any(x == "matches" for n in nodes(second["c"]) for x in n.get("mac", [])) and \
-                "Function" in pp(second["c"])
+            # the case split must be exactly `matches!(value.kind, ExpressionKind::Function { .. })`: a property of the
+            # initialiser only (not of annotations or names)
+            c2 = peel(second["c"])
+            is_fn_test = c2.get("k") == "Match" and any(x == "matches" for x in c2.get("mac", [])) and \
+                pp(peel(c2["scrut"])).endswith("value.kind") and "ExpressionKind::Function" in pp(c2)
             fn_branch, val_branch = second["t"], second.get("e")
 
             def order(branch):
